@@ -170,6 +170,14 @@ func (p *Program) VerifyFunc(c *Contract) (res *FuncResult) {
 		}
 		benv := &SpecEnv{ex: ex, st: st, vars: vars, vtypes: vtypes, pkg: fn.Pkg.Pkg, contract: c}
 		bv, bt := benv.eval(b.Expr)
+		if u, isU := bv.(UConst); isU {
+			// an integer literal bound to an integer parameter
+			if _, _, isInt := intInfo(fn.Params[idx].Type()); !isInt {
+				res.Rejected = "bind: integer literal for non-integer parameter " + b.Name
+				return
+			}
+			bv, bt = Scalar{ex.intConst(u.V, fn.Params[idx].Type())}, fn.Params[idx].Type()
+		}
 		bv = ex.boxIfNeeded(bv, bt, fn.Params[idx].Type())
 		args[idx] = bv
 		vars[b.Name] = bv
@@ -266,6 +274,10 @@ func (p *Program) VerifyFunc(c *Contract) (res *FuncResult) {
 		}
 		if o.Mode == "" {
 			o.Mode = "int"
+		}
+		if s := c.Options["solvers"]; s != "" {
+			// solver order for this function's obligations (e.g. cvc5 first for div/mod decompositions)
+			o.Order = strings.Split(s, ",")
 		}
 		res.Obligations = append(res.Obligations, o)
 		return o
